@@ -112,8 +112,19 @@ func vpH_C15_frozen() {
 			bmWant = append(bmWant, uint32(i))
 		}
 	}
-	k := vpChoice("op", len(vpReadOpNames)+4)
+	k := vpChoice("op", len(vpReadOpNames)+5)
 	switch {
+	case k == len(vpReadOpNames)+4:
+		// the caller folds collection statistics: Merge adds into the value the
+		// segment returned (for a field it has and for fields it lacks)
+		vpNote("op:CollectionStats().Merge(other)")
+		for _, f := range []string{"a", "zz", "nofield"} {
+			st, err := seg.CollectionStats(f)
+			vpMust(err, "CollectionStats")
+			other, err := seg.CollectionStats("_id")
+			vpMust(err, "CollectionStats")
+			st.Merge(other)
+		}
 	case k >= len(vpReadOpNames)+2:
 		// a merge in which the segment is the LAST / the FIRST input and another
 		// input has a field the segment lacks, sorting between the segment's own
